@@ -153,7 +153,17 @@ class Facts:
         local_dir = {}
         list_local = {}
 
+        def unwrap(v):
+            # `None if w is None else self.addIn(..)`: an optional port
+            while isinstance(v, ast.IfExp):
+                a, b = v.body, v.orelse
+                v = b if (isinstance(a, ast.Constant) and a.value is None) else a if (isinstance(b, ast.Constant) and b.value is None) else None
+                if v is None:
+                    return None
+            return v
+
         def call_dir(v):
+            v = unwrap(v)
             if (isinstance(v, ast.Call) and isinstance(v.func, ast.Attribute)
                     and v.func.attr in PORT_ADDERS
                     and isinstance(v.func.value, ast.Name) and v.func.value.id == 'self'):
@@ -161,6 +171,7 @@ class Facts:
             return None
 
         def pname(v):
+            v = unwrap(v)
             if v.args and isinstance(v.args[0], ast.Constant):
                 return v.args[0].value
             return None
@@ -168,6 +179,10 @@ class Facts:
         for n in ast.walk(init):
             if isinstance(n, ast.Call) and call_dir(n):
                 allp.append((call_dir(n), pname(n), norm(n.args[0]) if n.args else '?'))
+        # locals bound to a port first (in any nesting depth: a helper inlined by hv/inline.py leaves `tmp = self.addIn(..)` under an `if`)
+        for n in ast.walk(init):
+            if isinstance(n, ast.Assign) and len(n.targets) == 1 and isinstance(n.targets[0], ast.Name) and call_dir(n.value):
+                local_dir[n.targets[0].id] = (call_dir(n.value), pname(n.value), False)
         for n in ast.walk(init):
             if isinstance(n, ast.Assign) and len(n.targets) == 1:
                 t = n.targets[0]
